@@ -56,7 +56,8 @@ def check(run):
     return vlib.finish(run, rule="all ordered pairs of every universe; a pair is judged by RankExplains on the full observed matrix",
                        exhaustive=not quick, judged=total_judged, min_judged=1000)
 
-BIG = ["4294967296", "18446744073709551616", "99999999999999999999", "000000000000000000000007", "340282366920938463463374607431768211456"]
+BIG = ["4294967296", "18446744073709551616", "99999999999999999999", "000000000000000000000007", "340282366920938463463374607431768211456",
+       "00018446744073709551616", "018446744073709551617", "0018446744073709551616", "98446744073709551616", "0098446744073709551616"]
 def seeded_universes(U, rnd, k):
     """B2: mutate accepted-looking members: replace digit runs by seeded magnitudes /
     leading-zero forms / very long runs, change letter case; 12-40 members per universe."""
